@@ -33,6 +33,15 @@ def unwrap(n):
     return {"k": k, "hex": n["hex"]}
 
 
+_COUNTER = [0]
+
+
+def _fresh() -> str:
+    """a slot name not used by any enclosing slot frame"""
+    _COUNTER[0] += 1
+    return "s%d" % _COUNTER[0]
+
+
 def build(n, late):
     """JSON tree -> real flattenable"""
     from twisted.internet.defer import Deferred, succeed
@@ -62,9 +71,10 @@ def build(n, late):
         inner = build(n["node"], late)
         how = n["how"]
         if how == "slot-default":
-            return slot("s", default=inner)
+            return slot(_fresh(), default=inner)
         if how == "slot-filled":
-            return Tag("")(slot("s")).fillSlots(s=inner)
+            nm = _fresh()
+            return Tag("")(slot(nm)).fillSlots(**{nm: inner})
         if how == "deferred":
             return succeed(inner)
         if how == "deferred-late":
@@ -306,7 +316,12 @@ def show_tokens(toks) -> str:
 def impl(case) -> str:
     if case["k"] == "raw":
         return "- " + show_tokens(ref_tokens(bytes.fromhex(case["hex"])))
-    b = flatten_real(case)
+    from twisted.web.error import FlattenerError
+    try:
+        b = flatten_real(case)
+    except FlattenerError as e:     # never expected for the generated trees; its own __str__ is not safe to call
+        inner = e.args[0] if e.args else None
+        return "EXC:FlattenerError:" + type(inner).__name__
     return b.hex() + " " + show_tokens(ref_tokens(b))
 
 
@@ -502,6 +517,8 @@ def oracle(case, obs):
     if case["k"] == "raw":
         return None
     tree = unwrap(case)
+    if obs.startswith("EXC:"):
+        return Failure(case, "flattening raised " + obs, "flatten-raises:" + obs.split(":")[-1])
     flat = bytes.fromhex(obs.split(" ", 1)[0])
     want = _merge_expected(expected_tokens(tree))
     got = normalise(ref_tokens(flat))
@@ -699,7 +716,7 @@ SPEC = Spec(
     corpus=corpus,
     shrink=shrink,
     histogram=hist,
-    nontrivial=lambda c, o: c["k"] == "raw" or any(x in bytes.fromhex(o.split(" ", 1)[0]) for x in (b"&", b"<!", b"=")),
+    nontrivial=lambda c, o: c["k"] == "raw" or (not o.startswith("EXC:")) and any(x in bytes.fromhex(o.split(" ", 1)[0]) for x in (b"&", b"<!", b"=")),
     rule="every text of length <= 3 (thorough 4, sampled at the last length) over {< > & quote - ] ! a} as comment / "
          "CDATA / content text / attribute value followed by a sentinel; random trees of depth <= 5 (tags incl. void "
          "elements and namespaced names, 0..2 attributes whose values are texts or whole subtrees, lists / tuples / "
